@@ -145,6 +145,8 @@ class Printer:
         out.append(self.expr(x, True))
       elif f == 'logica_value':
         out.append('logica_value: ' + self.expr(x, True))
+      elif self.opt.get('field_shorthand') and isinstance(x, dict) and x.get('var') == f:
+        out.append('%s:' % f)
       else:
         out.append('%s: %s' % (f, self.expr(x, True)))
     return ', '.join(out)
@@ -153,7 +155,10 @@ class Printer:
     if 'atom' in p:
       return '%s(%s)' % (p['atom'], self.args(p['args']))
     if 'eq' in p:
-      return '%s == %s' % (self.expr(p['eq'][0], True), self.expr(p['eq'][1], True))
+      a, b = p['eq']
+      if self.opt.get('agg_form') == 'opeq' and 'var' in a and isinstance(b, dict) and 'agg' in b and ':' not in b['agg']:
+        return '%s %s= (%s :- %s)' % (a['var'], b['agg'], self.expr(b['e'], True), self.prop(b['body'], True))
+      return '%s %s %s' % (self.expr(a, True), '=' if self.opt.get('single_eq') else '==', self.expr(b, True))
     if 'test' in p:
       s = self.expr(p['test'], True)
       if s.startswith('(') and s.endswith(')') and 'op' in p['test'] and p['test']['op'] in INFIX:
@@ -169,6 +174,14 @@ class Printer:
       return '(' + s + ')'
     if 'not' in p:
       q = p['not']
+      if self.opt.get('implication') and 'and' in q and len(q['and']) >= 2 and 'not' in q['and'][-1]:
+        ante = q['and'][:-1]
+        a_txt = self.prop(ante[0]) if len(ante) == 1 else '(' + ', '.join(self.prop(x) for x in ante) + ')'
+        cq = q['and'][-1]['not']
+        c_txt = self.prop(cq) if 'atom' in cq else '(' + self.prop(cq, True) + ')'
+        return '(%s => %s)' % (a_txt, c_txt)
+      if self.opt.get('neg_as_agg'):
+        return '(Max{1 :- %s} is null)' % self.prop(q, True)
       return '~' + (self.prop(q) if 'atom' in q else '(' + self.prop(q, True) + ')')
     raise AssertionError(p)
 
@@ -180,18 +193,28 @@ class Printer:
         continue
       if isinstance(x, dict) and 'aggop' in x:
         plain.append('%s? %s= %s' % (f, x['aggop'], self.expr(x['e'], True)))
-      elif f.startswith('col') and f[3:].isdigit():
+      elif f.startswith('col') and f[3:].isdigit() and not self.opt.get('explicit_cols'):
         plain.append(self.expr(x, True))
+      elif self.opt.get('field_shorthand') and isinstance(x, dict) and x.get('var') == f:
+        plain.append('%s:' % f)
       else:
         plain.append('%s: %s' % (f, self.expr(x, True)))
+    valagg = value is not None and isinstance(value, dict) and 'aggop' in value
+    if value is not None and self.opt.get('explicit_value'):
+      if valagg:
+        plain.append('logica_value? %s= %s' % (value['aggop'], self.expr(value['e'], True)))
+      else:
+        plain.append('logica_value: %s' % self.expr(value, True))
     head = '%s(%s)' % (r['head'], ', '.join(plain))
-    if value is not None:
-      if isinstance(value, dict) and 'aggop' in value:
+    if value is not None and not self.opt.get('explicit_value'):
+      if valagg:
         op = value['aggop']
         head += (' += ' if op == 'Sum' else ' %s= ' % op) + self.expr(value['e'], True)
       else:
         head += ' = ' + self.expr(value, True)
-    if r.get('distinct') and not (value is not None and isinstance(value, dict) and 'aggop' in value):
+    if r.get('distinct') and not (valagg and not self.opt.get('explicit_value')):
+      head += ' distinct'
+    elif valagg and self.opt.get('explicit_value'):
       head += ' distinct'
     body = r.get('body')
     if body is None:
